@@ -301,6 +301,7 @@ def mon_goaway(c):
     ga_last, ga_step = None, None
     tag_sid, written = {}, set()
     refused, finished_by_server = set(), {}
+    streamed = set()
     ended_by_client = False
     srv = {}
     for (at, text) in c.notes:
@@ -313,6 +314,8 @@ def mon_goaway(c):
         if op in ("close", "cut"):
             ended_by_client = True
         hs = [x for x in client_frames(diag) if x[0] == "H"]
+        if op == "req" and f[10].startswith("str:"):
+            streamed.add(f[3])
         for (k, sid, a) in hs:
             if op == "req":
                 tag_sid[f[3]] = sid
@@ -349,6 +352,9 @@ def mon_goaway(c):
                 disclaimed = (ga_last is not None and sid > ga_last) or sid in refused
                 if not disclaimed:
                     v.append(("written-request-reported-retryable", "%s (stream %d) err=%s" % (tag, sid, err)))
+                elif tag in streamed:
+                    # disclaimed or not, a body that came from a reader has been consumed: the request cannot be re-sent as given
+                    v.append(("streamed-request-reported-retryable", "%s (stream %d) err=%s" % (tag, sid, err)))
             if ga_last is not None and sid > ga_last and err == "ok" and sid in srv and srv[sid][0] > ga_step:
                 v.append(("above-last-reported-successful", "%s on stream %d" % (tag, sid)))
             if ga_last is not None and 0 < sid <= ga_last and sid in srv:
@@ -593,64 +599,8 @@ def mon_msg(c):
 # ------------------------------------------------------------------ known-finding classes
 # predicates over the canonical trace of one connection
 
-def has_continuation(c):
-    return any(t == 9 for (f, _, _, _) in c.steps if f[2] == "frame" for (t, _, _, _) in parse_frames(f[3]))
-
-
-def goaway_with_streams_in_flight(c):
-    opened, closed = set(), set()
-    for (f, cmp_, diag, _) in c.steps:
-        for (k, sid, a) in client_frames(diag):
-            if k == "H":
-                opened.add(sid)
-        if f[2] == "frame":
-            for (t, fl, sid, p) in parse_frames(f[3]):
-                if t == 7 and sid == 0 and len(p) >= 8 and int.from_bytes(p[:4], "big") & 0x7fffffff > 0 and opened - closed:
-                    return True
-                if t == 3 or (t in (0, 1) and fl & 1):
-                    closed.add(sid)
-    return False
-
-
-def data_on_abandoned_stream(c):
-    gone = set()
-    tag_sid = {}
-    for (f, cmp_, diag, _) in c.steps:
-        for (k, sid, a) in client_frames(diag):
-            if k == "H" and f[2] == "req":
-                tag_sid[f[3]] = sid
-            if k == "R":
-                gone.add(sid)
-        if f[2] == "frame":
-            for (t, fl, sid, p) in parse_frames(f[3]):
-                if t == 0 and (sid in gone or (fl & 8 and len(p) > 0 and len(p) == p[0] + 1)):
-                    return True
-                if t == 3 or (t in (0, 1) and fl & 1):
-                    gone.add(sid)
-    return False
-
-
 def always(c):
     return True
-
-
-def table_size_lowered_then_raised(c):
-    """between two requests the server lowered SETTINGS_HEADER_TABLE_SIZE and raised it again"""
-    cur, low = 4096, None
-    for (f, cmp_, diag, _) in c.steps:
-        if f[2] in ("new", "frame"):
-            for (t, fl, sid, p) in parse_frames(f[3]):
-                if t == 4 and sid == 0 and not fl & 1 and len(p) % 6 == 0:
-                    for i in range(0, len(p), 6):
-                        if int.from_bytes(p[i:i + 2], "big") == 1:
-                            v = int.from_bytes(p[i + 2:i + 6], "big")
-                            low = v if low is None else min(low, v)
-                            cur = v
-        if any(k == "H" for (k, sid, a) in client_frames(diag)):
-            if low is not None and low < cur:
-                return True
-            low = None
-    return False
 
 
 def end_stream_bit_on_other_frame(c):
@@ -661,27 +611,29 @@ def end_stream_bit_on_other_frame(c):
 
 
 CLASSES = {
-    "response-block-continued": has_continuation,
-    "goaway-with-streams-in-flight": goaway_with_streams_in_flight,
-    "data-on-abandoned-stream": data_on_abandoned_stream,
     "every-connection": always,
-    "table-size-lowered-then-raised": table_size_lowered_then_raised,
     "end-stream-bit-on-other-frame": end_stream_bit_on_other_frame,
 }
 
 # which violation kinds a class can explain
 CLASS_KINDS = {
-    "response-block-continued": {"response-not-delivered", "response-differs-from-server-output"},
-    "goaway-with-streams-in-flight": {"above-last-not-failed-promptly", "accepted-stream-lost-its-response"},
-    "data-on-abandoned-stream": {"connection-credit-withheld", "stream-credit-withheld"},
     "every-connection": {"enable-push-0-not-advertised"},
-    "table-size-lowered-then-raised": {"header-table-size-exceeded", "request-header-block-undecodable"},
     "end-stream-bit-on-other-frame": {"success-without-response", "response-from-nowhere"},
 }
 
 
 # ------------------------------------------------------------------ driver
 MONITOR_ONLY = {"clirace"}
+
+# Witnesses of findings that have been repaired: replayed on every run of the property like a generated area, compared
+# with the model and judged by the monitors with nothing excused, so the defect is reported if it returns.
+REGRESSION = {
+    "C14": ["known/F39.ops"],
+    "C02": ["known/F36.ops"],
+    "C11": ["known/F37.ops"],
+    "C12": ["known/F36.ops"],
+    "C18": ["known/F09.ops"],
+}
 
 
 def mask_undecodable(impl_line, model_line):
@@ -699,8 +651,15 @@ def run_areas(ctx, areas, monitors, extra_note=""):
     covs = {}
     nviol = collections.Counter()
     known_ok = check_known(ctx, monitors)
-    for area in areas:
-        ops, impl, model = ctx.gen_run_compare(ctx.pid, area, ctx.tier, ctx.seed, ctx.log)
+    inputs = [(area, None) for area in areas]
+    for path in REGRESSION.get(ctx.pid[:3], []):
+        full = os.path.join(ctx.root, path)
+        if os.path.exists(full):
+            inputs.append(("regress_" + os.path.basename(path).split(".")[0], [l.rstrip("\n") for l in open(full)]))
+        else:
+            ctx.broken.append(dict(what="regression input %s is missing" % path, detail=""))
+    for area, fixed_ops in inputs:
+        ops, impl, model = ctx.gen_run_compare(ctx.pid, area, ctx.tier, ctx.seed, ctx.log, extra_ops=fixed_ops)
         cmp_impl = [a.partition(" ## ")[0] for a in impl]
         # steps whose outcome the model marks as depending on map iteration order are not compared
         model2 = [a if b == "ambiguous" else b for a, b in zip(cmp_impl, model)]
